@@ -47,8 +47,9 @@ package exec
 
 //@ extern strconv.FormatFloat(f, fmt, prec, bits) (r)
 //@   pure
-//@   uses values
+//@   uses values fmtg
 //@   ensures fmt == 102 && prec == 0 - 1 && bits == 64 && !isNaN(f) && !isInf(f) ==> r == fmtf(f)
+//@   ensures fmt == 103 && prec == 0 - 1 && bits == 64 ==> r == fmtg(f)
 //@   ensures isNaN(f) ==> r == "NaN"
 
 // ---------- exec/result.go ----------
@@ -2025,6 +2026,7 @@ package exec
 //@ extern fmt.Sprintf(format, a) (r)
 //@   pure
 //@   ensures format == "{%s}%s" && len(a) == 2 ==> r == bracedName(unboxStr(a[0]), unboxStr(a[1]))
+//@   ensures format == "%t" && len(a) == 1 && boxedBool(a[0]) ==> r == (if unboxBool(a[0]) then "true" else "false")
 
 //@ func getName(nodeSet, ok, nameType) (r, err)
 //@   property C12 C13 C15
